@@ -46,6 +46,35 @@ pub fn run_case(tree: &J, tokens: &J, scope_j: &J) -> J {
   json!({"tree": tree, "scope": scope_j, "text": text, "obs": obs, "obs2": obs2})
 }
 
+/// Amounts by which lo and hi are moved for the translation-invariance law: across 2^31, 2^32, 2^53, -2^31, -2^32,
+/// and two round ones (all within the 64-bit integers a range is iterated with).
+const SHIFT_BASES: &[i128] = &[2147483645, 4294967293, 9007199254740989, 1000000000000000, 4611686018427387000, -2147483650, -4294967298, -9007199254740995];
+
+/// One case of the shift family: the ordinary observation for the small scope plus the values observed with both names
+/// moved by each base.
+pub fn run_shift_case(tree: &J, tokens: &J, scope_j: &J) -> J {
+  let mut rec = run_case(tree, tokens, scope_j);
+  let text = text_of(tokens);
+  let small = dec_context(scope_j);
+  let get = |n: &str| -> i128 {
+    match small.get_entry(&Name::from(n)) {
+      Some(Value::Number(v)) => v.to_string().parse::<i128>().unwrap_or_else(|_| tool_error("shift scope: not an integer")),
+      _ => tool_error("shift scope: lo / hi missing"),
+    }
+  };
+  let (lo, hi) = (get("lo"), get("hi"));
+  let mut shifts = vec![];
+  for b in SHIFT_BASES {
+    let mut c = FeelContext::default();
+    c.set_entry(&Name::from("lo"), Value::Number(FeelNumber::from_i128(lo + b)));
+    c.set_entry(&Name::from("hi"), Value::Number(FeelNumber::from_i128(hi + b)));
+    let scope: Scope = c.into();
+    shifts.push(json!({"base": b.to_string(), "obs": eval_in(&scope, &text)}));
+  }
+  rec["shifts"] = json!(shifts);
+  rec
+}
+
 fn kinds(t: &J, out: &mut Vec<String>) {
   if let Some(n) = t.get("n").and_then(|n| n.as_str()) {
     if !["name", "num", "str", "bool", "null"].contains(&n) {
@@ -125,7 +154,8 @@ pub fn check(mut ctx: Ctx, replay: Option<J>) -> ! {
   let mut recs = vec![];
   if let Some(r) = &replay {
     let c = &r["case"]["record"];
-    recs.push(run_case(&c["tree"], &json!(c["text"].as_str().unwrap_or("").split(' ').collect::<Vec<_>>()), &c["scope"]));
+    let toks = json!(c["text"].as_str().unwrap_or("").split(' ').collect::<Vec<_>>());
+    recs.push(if c["shifts"].is_null() { run_case(&c["tree"], &toks, &c["scope"]) } else { run_shift_case(&c["tree"], &toks, &c["scope"]) });
   } else {
     let gen = tlc.run(Run::new("Gen_C01", if quick { "Gen_C01.cfg" } else { "Gen_C01Deep.cfg" }).timeout(3000));
     if !gen.ok {
@@ -141,6 +171,18 @@ pub fn check(mut ctx: Ctx, replay: Option<J>) -> ! {
         recs.push(run_case(&e["tree"], &e["full"], s));
       }
     }
+    // translation invariance of ranges: lo..hi moved beyond 2^31, 2^32, 2^53 (numbers TLC's integers cannot hold)
+    let shift_exprs = gen.tagged("SHIFT");
+    let shift_scopes = gen.tagged("SHIFTSCOPES").pop().and_then(|s| s.as_array().cloned()).unwrap_or_default();
+    if shift_exprs.len() < 10 || shift_scopes.len() < 3 {
+      tool_error("too few expressions or scopes for the translation-invariance law");
+    }
+    for e in &shift_exprs {
+      for s in &shift_scopes {
+        recs.push(run_shift_case(&e["tree"], &e["full"], s));
+      }
+    }
+    ctx.cov("range_translation_cases", json!(shift_exprs.len() * shift_scopes.len() * SHIFT_BASES.len()));
     ctx.cov("expressions", json!(exprs.len()));
     ctx.cov("scopes", json!(scopes.len()));
     // deeper nests: random walks through the same templates (TLC's simulation mode, Gen_C01Walk), seeded; every
